@@ -334,6 +334,12 @@ func (r *Run) assert(cond value, msg string, pos string) {
 			return
 		}
 		t = r.tc.False
+		if r.concrete == nil && len(r.pc) > 0 {
+			// the path itself must still be feasible under the axioms instantiated since it was taken
+			if res := r.check(); res == Unsat {
+				panic(runAbort{"infeasible"})
+			}
+		}
 	case symBool:
 		t = c.t
 	default:
